@@ -32,6 +32,7 @@ type c19Inv struct {
 	Family    string          `json:"family"`      // base | sweep | multi
 	RefKey    string          `json:"-"`
 	HasLink   bool            `json:"has_link,omitempty"`
+	Unsettled bool            `json:"unsettled,omitempty"` // the property does not settle whether this vector is an error: exit 0 is accepted if the outputs are right
 }
 
 var extOf = map[string]string{"bash": "sh", "batch": "bat"}
@@ -271,7 +272,9 @@ func c19Gen(r *Run, rng *gen.Rng, corpus []string) *c19Inv {
 			args = append(args, "--frobnicate", "1")
 			inv.Why = "unknown switch"
 		case 1:
-			args = append(args, "-t", rng.Pick([]string{"powershell", "BASH", "", "sh"}))
+			// (spellings a tolerant parser might accept one day — BASH, sh — are left out: the
+			// property does not settle them)
+			args = append(args, "-t", rng.Pick([]string{"powershell", "", "python", "bash,batch"}))
 			inv.Why = "unknown type"
 		case 2, 3, 4:
 			drop := rng.Pick([]string{"-i", "-o", "-t"})
@@ -310,6 +313,7 @@ func c19Gen(r *Run, rng *gen.Rng, corpus []string) *c19Inv {
 			}
 			inv.Why = "output directory missing"
 			inv.OutArg = "/sim/no/such/dir"
+			inv.Unsettled = true // creating the directory instead of failing would be a legitimate behaviour
 		default:
 			for i := 1; i+1 < len(args); i += 2 {
 				if args[i] == "-o" || args[i] == "--out" {
@@ -546,7 +550,7 @@ func c19Judge(inv *c19Inv, res *TshResult, refs map[string]*c19Ref, st *c19Stats
 	}
 	if res.Exit == 0 {
 		// clause 4: invalid options or a rejected target must not exit 0
-		if !inv.Valid {
+		if !inv.Valid && !inv.Unsettled {
 			clause("4:invalid-options-exit0")
 			return "exit0-on-invalid-options", inv.Why
 		}
